@@ -434,7 +434,7 @@ func (c *ctxConn) Read(b []byte) (n int, err error) {
 func (c *ctxConn) Write(b []byte) (n int, err error) {
 	for {
 		if err = c.writeCtx.Err(); err != nil {
-			return 0, err
+			return n, err
 		}
 
 		deadline := time.Now().Add(c.writeTimeout)
@@ -445,15 +445,19 @@ func (c *ctxConn) Write(b []byte) (n int, err error) {
 		}
 
 		if err = c.conn.SetWriteDeadline(deadline); err != nil {
-			return 0, err
+			return n, err
 		}
 
-		n, err = c.conn.Write(b)
+		// Write only what the connection has not accepted yet: a retry after a
+		// short write must not send the accepted bytes again
+		var nw int
+		nw, err = c.conn.Write(b[n:])
+		n += nw
 		if err != nil {
 			if netErr, ok := err.(net.Error); ok && netErr.Timeout() && netErr.Temporary() {
 				continue
 			}
-			return 0, err
+			return n, err
 		}
 
 		return n, nil
